@@ -56,8 +56,8 @@ func reps(tier string) (inProc, procs int) {
 var Check = &run.Check{
 	ID:    "C08",
 	Level: "exploration",
-	Rule: "case kinds by index mod 8: 0-2 a generated Java project (3-12 methods per type, nullable methods, controllers, test classes) analysed N times in one process (identifier pass, full pass, and from the model: call graph, reverse call graph + map, " +
-		"architecture graph + DOT, bad-smell list, test-smell list, API list, reference counts in listing order, evaluation summary, concept list); 3-4 the same through the CLI pipeline in M fresh processes " +
+	Rule: "case kinds by index mod 8: 0-2,4 a generated Java project (3-12 methods per type, nullable methods, controllers, test classes) analysed N times in one process (identifier pass, full pass, and from the model: call graph, reverse call graph + map, " +
+		"architecture graph + DOT, bad-smell list, test-smell list, API list, reference counts in listing order, evaluation summary, concept list); 3 the same through the CLI pipeline in M fresh processes " +
 		"(analysis, call, rcall, arch, bs, tbs, api -f -c, count, evaluate, concept: files under coca_reporter and stdout); 5 a synthesised git history through the five summaries N times; 6 a generated tree through `coca cloc --by-directory` and --top-file M times; " +
 		"7 a generated Go file through the Go front-end N times. Outputs are compared after canonicalisation: model up to function order, reports as collections, promised orders on untied keys. " +
 		"non-trivial = the input has >= 3 rows in some report / >= 3 functions in some type; distinct = hash of the input shape. The monitor also counts how many distinct function orders it saw (evidence that different map schedules were sampled).",
@@ -249,9 +249,9 @@ func firstDiff(a, b string) string {
 
 func runCase(c *run.Ctx, o *run.Outcome) {
 	switch c.Index % 8 {
-	case 0, 1, 2:
+	case 0, 1, 2, 4:
 		javaInProcess(c, o)
-	case 3, 4:
+	case 3:
 		javaCLI(c, o)
 	case 5:
 		gitCase(c, o)
